@@ -13,24 +13,72 @@ Definition Tsum (l : list N) : T :=
   if Nat.leb n 48 then Tb l
   else Tl [Tnat n; TN (cksum l); Tb (firstn 8 l); Tb (skipn (n - 8) l)].
 
-Definition msg_T (m : msg) : T := Tl [Tbool (fst m); Tsum (snd m)].
+(* [lax]: the case contains text that is not valid UTF-8; the implementation delivers
+   decode('utf-8','replace') of it, which the model (text = bytes) does not describe, so only the
+   type of text messages is compared in such a case; everything else stays exact *)
+Definition msg_T (lax : bool) (m : msg) : T :=
+  Tl [Tbool (fst m); if lax && fst m then Tb [] else Tsum (snd m)].
 
 (* the frames written during one operation are compared as one byte string: how the bytes are
    distributed over write events is not part of the property *)
-Definition out_T (o : out) : T :=
-  Tl [Tlist msg_T (delivered o); Tsum (concat (written o)); Tnat (pclose o)].
+Definition out_T (lax : bool) (o : out) : T :=
+  Tl [Tlist (msg_T lax) (delivered o); Tsum (concat (written o)); Tnat (pclose o)].
 
 (* table of the masking keys the implementation drew from os.urandom, in order *)
 Definition key_table (keys : list (list N)) : nat -> list N :=
   fun i => match nth_error keys i with Some k => k | None => [] end.
 
-Definition obs_ws (client : bool) (keys : list (list N)) (ops : list op) : T :=
-  match run (key_table keys) client init ops with
-  | ROk (_, outs) => Tlist out_T outs
+Definition res_T {A} (f : A -> T) (r : R A) : T :=
+  match r with
+  | ROk a => f a
   | RCrash => Tl [Tn (-999)]
   | RFuel => Tl [Tn (-998)]
   end.
 
+Definition obs_ws (lax client : bool) (keys : list (list N)) (ops : list op) : T :=
+  res_T (fun x => Tlist (out_T lax) (snd x)) (run (key_table keys) client init ops).
+
 (* the specification encoder against the harness' own RFC 6455 encoder *)
 Definition obs_rfc (fin : bool) (opcode : N) (mk : option key4) (p : list N) : T :=
   Tsum (rfc_frame fin opcode mk p).
+
+(* WebSocketClient: reads from the transport (handshake response, then frames) and application
+   operations on the codec's channel (ignored while there is no codec) *)
+Inductive cop := CRead (d : list N) | CApp (o : op).
+
+Definition cstep (keyfn : nat -> list N) (c : cstate) (o : cop) : R (cstate * out) :=
+  match o with
+  | CRead d => cread keyfn true c d
+  | CApp a =>
+      match c with
+      | CHandshake _ => ROk (c, no_out)
+      | COpen s => match step keyfn true s a with
+                   | ROk (s', x) => ROk (COpen s', x)
+                   | RCrash => RCrash
+                   | RFuel => RFuel
+                   end
+      end
+  end.
+
+Fixpoint crun (keyfn : nat -> list N) (c : cstate) (ops : list cop) : R (list out) :=
+  match ops with
+  | [] => ROk []
+  | o :: r =>
+      match cstep keyfn c o with
+      | ROk (c1, x) => match crun keyfn c1 r with
+                       | ROk xs => ROk (x :: xs)
+                       | RCrash => RCrash
+                       | RFuel => RFuel
+                       end
+      | RCrash => RCrash
+      | RFuel => RFuel
+      end
+  end.
+
+Definition obs_cup (keys : list (list N)) (ops : list cop) : T :=
+  res_T (Tlist (out_T false)) (crun (key_table keys) (CHandshake []) ops).
+
+(* WebSocketsDispatcher: operations on several sockets *)
+Definition obs_disp (ops : list dop) : T :=
+  res_T (fun x => Tlist (fun y => Tl [Tnat (fst y); out_T false (snd y)]) (snd x))
+        (drun (key_table []) false t_empty ops).
